@@ -7,6 +7,8 @@
 import PCV.Proofs.IPAVerify
 import PCV.Props.Examples
 
+set_option linter.unusedSectionVars false
+
 namespace PCV.C02
 open PCV
 variable {F : Type} [Field F] [DecidableEq F]
